@@ -140,7 +140,7 @@ type vf04Seen struct {
 	withGrease             int
 }
 
-func newVf04Seen() *vf04Seen {
+func vf04NewSeen() *vf04Seen {
 	return &vf04Seen{cipher: map[uint16]bool{}, group: map[uint16]bool{}, version: map[uint16]bool{}, ext1: map[uint16]bool{}, ext2: map[uint16]bool{}}
 }
 
@@ -312,7 +312,7 @@ func vf04Hello(s *vf04Source, rnd *vfDetRand, name string) (raw []byte, exp vf04
 }
 
 func vf04RunSource(st *vfStats, t vfFataler, s *vf04Source, conns int, streamSeed uint64, det bool) {
-	seen := newVf04Seen()
+	seen := vf04NewSeen()
 	name := "grease.example.test"
 	for i := 0; i < conns; i++ {
 		var rnd *vfDetRand
